@@ -5,6 +5,7 @@ import (
 	"time"
 
 	"github.com/bluenviron/gomavlib/v3"
+	"github.com/bluenviron/gomavlib/v3/pkg/frame"
 	"github.com/bluenviron/gomavlib/v3/pkg/message"
 
 	"verif/hd"
@@ -107,10 +108,14 @@ func fanoutRun(opt fanOpt) func(h []dsim.Rec) {
 	e.start = time.Now()
 
 	// endpoints: 1..3, stable peers on each
-	kinds := []int{epCustom, epTCPServer, epUDPServer, epTCPClient, epSerial}
+	kinds := []int{epCustom, epTCPServer, epUDPServer, epTCPClient, epSerial, epUDPClient, epBroadcast}
 	neps := 1 + dsim.Choose(depth(3, 5))
 	for i := 0; i < neps; i++ {
-		e.addEndpoint(kinds[dsim.Choose(len(kinds))])
+		k := kinds[dsim.Choose(len(kinds))]
+		if i == 0 && planFlaky {
+			k = epCustom // the flaky link is a custom transport
+		}
+		e.addEndpoint(k)
 	}
 	fl := &flow{e: e, reserved: map[*link]int{}, received: map[*link]int{}, parsed: map[*link]int{}}
 	var stable []*link
@@ -120,6 +125,7 @@ func fanoutRun(opt fanOpt) func(h []dsim.Rec) {
 		e.mu.Unlock()
 	}
 	expectStable := 0
+	needHello := false
 	var tcpServerEp *epCfg
 	for _, ep := range e.cfg.eps {
 		ep := ep
@@ -145,6 +151,20 @@ func fanoutRun(opt fanOpt) func(h []dsim.Rec) {
 			expectStable++
 		case epTCPServer:
 			tcpServerEp = ep
+		case epUDPClient, epBroadcast:
+			// the peer learns the node's socket from the first datagram the node sends
+			first := true
+			if _, err := e.packetPeer(ep, func(l *link) {
+				if first {
+					first = false
+					addStable(l)
+				}
+			}); err != nil {
+				dsim.Failf("harness", "peer packet listen: %v", err)
+				return nil
+			}
+			expectStable++
+			needHello = true
 		}
 	}
 	appPace := dsim.Choose(4)
@@ -190,6 +210,22 @@ func fanoutRun(opt fanOpt) func(h []dsim.Rec) {
 			dsim.Sleep(50 * time.Millisecond)
 			l.closeByPeer(false)
 		}
+	}
+	if needHello {
+		// with heartbeats off nothing leaves the node by itself: the application says hello (a
+		// forwarded frame that no oracle counts) until every datagram peer has heard the node
+		dsim.Go("hello", func() {
+			for i := 0; i < 100; i++ {
+				e.mu.Lock()
+				ns := len(stable)
+				e.mu.Unlock()
+				if ns >= expectStable {
+					return
+				}
+				e.node.WriteFrameAll(helloFrame(e.cfg.version == 2, uint32(i))) //nolint
+				dsim.Sleep(200 * time.Millisecond)
+			}
+		})
 	}
 	// wait until the application has seen every stable channel open
 	deadline := e.now() + 30*time.Second
@@ -524,6 +560,14 @@ func (e *env) checkFanout(stable, churn []*link, items [][]fanItem) {
 
 // checkFanoutEx: stable links must receive everything exactly once; lossy links (stalled or
 // failed) are checked for at-most-once, order and isolation only.
+// helloFrame is a forwarded frame of "writer" 250, which no oracle counts as an item.
+func helloFrame(v2 bool, idx uint32) frame.Frame {
+	f := &ref.Frame{V2: v2, Seq: byte(idx), Sys: 199, Comp: 1, MsgID: ref.DefTag.ID}
+	f.Payload = ref.DefTag.Encode(tagVals(250, byte(opFrameAll), idx, 0), v2)
+	f.Checksum = f.ComputeChecksum(ref.DefTag.CRCExtra())
+	return fromRef(f)
+}
+
 func (e *env) checkFanoutEx(stable, lossy, churn []*link, items [][]fanItem) {
 	isLossy := map[*link]bool{}
 	for _, l := range lossy {
